@@ -1097,4 +1097,18 @@ def s_fun(name: str, x, real_if_real: bool = True, nonzero: bool = False, positi
             e.axiom(res.nr > 0)
         elif nonzero:
             e.axiom(z3.Not(res.zero_term()))
+        if rr and name in _INCREASING:
+            # strictly increasing on the reals: order of the values = order of the arguments, instantiated against the
+            # (few) earlier applications of the same function
+            earlier = [(a[0], r) for a, r in e.scratch.get("uf:" + name, []) if r is not res and a[0].is_real()]
+            for oa, ores in earlier[-_MONO_MAX:]:
+                for lt_a, lt_r in (((oa < arg), (ores < res)), ((arg < oa), (res < ores))):      # both strict orders: injective too
+                    ta = lt_a.term if hasattr(lt_a, "term") else z3.BoolVal(bool(lt_a))
+                    tr = lt_r.term if hasattr(lt_r, "term") else z3.BoolVal(bool(lt_r))
+                    if _eng._ast_size(ta, 20000) < 20000:
+                        e.axiom(ta == tr)
     return uf(name, [v], real_result=rr, axioms=ax).with_npy(True)
+
+
+_INCREASING = {"log", "log10", "log2", "exp"}
+_MONO_MAX = 6
